@@ -12,6 +12,7 @@ import (
 	"time"
 
 	"connectrpc.com/conformance/internal"
+	"connectrpc.com/conformance/internal/tracer"
 )
 
 // ---------------------------------------------------------------------------------------------
@@ -95,7 +96,7 @@ type verifC12Flight struct {
 // sched. Events that do not apply (enter of a request already started, leave of a request not
 // started or already released) are the caller's business: they are executed as no-ops. Requests
 // still inside the wrapped handler at the end are released (in order) without being observed.
-func VerifC12Overlap(reqs []*http.Request, sched []VerifC12Ev, stderr bool) ([]VerifC12EvObs, []VerifC12ReqObs) {
+func VerifC12Overlap(reqs []*http.Request, sched []VerifC12Ev, stderr, traced bool) ([]VerifC12EvObs, []VerifC12ReqObs) {
 	rec := &verifC12Printer{}
 	var printer internal.Printer = rec
 	var stream *verifC12LockedBuffer
@@ -123,7 +124,10 @@ func VerifC12Overlap(reqs []*http.Request, sched []VerifC12Ev, stderr bool) ([]V
 		<-f.release
 		w.WriteHeader(http.StatusOK)
 	})
-	handler := referenceServerChecks(inner, printer)
+	var handler http.Handler = referenceServerChecks(inner, printer)
+	if traced { // as createServer does when the server has a tracer
+		handler = tracer.TracingHandler(handler, &tracer.Tracer{})
+	}
 	start := func(f *verifC12Flight, gate <-chan struct{}) {
 		f.started = true
 		go func() {
